@@ -1184,6 +1184,11 @@ func cleanFlagConditions(fcs *[]FlagCondition) bool {
 		forbidden  []uint64
 	}
 	infos := []forbiddenFlagValues(nil)
+	// only the bits that some condition looks at can make a difference
+	allMask := uint16(0)
+	for _, fc := range *fcs {
+		allMask |= fc.Mask
+	}
 next_fc:
 	for _, fc := range *fcs {
 		sort.Strings(fc.SubQueries)
@@ -1199,12 +1204,12 @@ next_fc:
 			}
 			continue
 		}
-		forbidden := make([]uint64, 0x10000/64)
-		for v := uint16(0); ; v++ {
+		forbidden := make([]uint64, int(allMask)/64+1)
+		for v := allMask; ; v = (v - 1) & allMask {
 			if v&fc.Mask == fc.Value {
 				forbidden[v/64] |= 1 << (v % 64)
 			}
-			if v == math.MaxUint16 {
+			if v == 0 {
 				break
 			}
 		}
@@ -1233,7 +1238,10 @@ next_fc:
 		mask := uint16(0)
 		for bit := 0; bit < 16; bit++ {
 			m := uint16(1 << bit)
-			for v := ^m; ; v = (v - 1) & ^m {
+			if allMask&m == 0 {
+				continue
+			}
+			for v := allMask &^ m; ; v = (v - 1) & allMask &^ m {
 				f1 := 1 & (info.forbidden[v/64] >> (v % 64))
 				f2 := 1 & (info.forbidden[(v^m)/64] >> ((v ^ m) % 64))
 				if f1 != f2 {
